@@ -9,7 +9,10 @@ in {none, strong, weak} and compared with RFC 7232's table (rows with corrupt
 lists / unparseable dates are don't-cares); (R2) the If-Match loop uses the strong
 and the If-None-Match loop the weak comparison (recognised by their own tables);
 (R3) each list loop's result flag is monotone: initialised to the neutral value
-and flipped only under the comparator applied to (list item, entity tag);
+and flipped only under the comparator applied to (list item, entity tag) - the
+loop may be a `for` loop or one `Iterator::fold`, in the list function or in a
+helper shared by both (instances told apart by call chain), with the comparator
+called directly or through a fn pointer;
 (R5) the tag-list tokeniser's shape: an element ends at the next '"' after the
 opening quote, a ',' is consumed only right after a closing quote and is followed
 by skipping SP/HTAB; index arithmetic discharged; (R6) 412 dominates 304
